@@ -103,7 +103,7 @@ Proof.
     destruct (in_b_assign flv slv reg vars es l en o Hv Hin) as [(n0 & ln & Hvin & (Hl & _))|(e & o0 & He & Ho0 & (Hl & _))]; rewrite Hl.
     + cbn [s_loc]. eapply idm_mono; [apply (assign_incl vars es l (EName n0 ln)); apply in_or_app; left; exact Hvin|apply id_marks_idm].
     + rewrite Forall_forall in IHe. eapply idm_mono; [apply (assign_incl vars es l e); apply in_or_app; right; exact He|eapply IHe; eauto].
-  - intros ns ls at_ es l _ _ _ _ IHe flv slv reg en o Hin.
+  - intros ns ls at_ es l _ _ _ IHe flv slv reg en o Hin.
     destruct (in_b_local flv slv reg ns ls at_ es l en o Hin) as [(i & e & o0 & Hnth & Ho0 & (Hl & _))|((nm & lx) & bb & Hnl & ->)].
     + rewrite Hl. cbn [m2_stat]. rewrite Forall_forall in IHe. pose proof (nth_error_In _ _ Hnth) as He.
       eapply idm_mono; [|eapply IHe; eauto]. apply incl_appr.
